@@ -289,23 +289,59 @@ def helper_probe():
             failures.append((f"{PROP}:{klass}.copy:not-editable", {"what": f"copy() of a frozen {klass} cannot be edited: {e}", "class": klass}))
         if build(klass).is_frozen:
             failures.append((f"{PROP}:{klass}.is_frozen", {"what": "a fresh network reports is_frozen", "class": klass}))
-    H = build("Hypergraph")
-    sub = xgi.subhypergraph(H, nodes=[1, 2, 3])
-    if not sub.is_frozen:
-        failures.append((f"{PROP}:subhypergraph:not-frozen", {"what": "subhypergraph result is not frozen"}))
-    else:
-        before = snapshot(sub, "Hypergraph")
-        for name in sorted(KNOWN["Hypergraph"] - {"update", "merge_duplicate_edges", "cleanup"}):
-            ca = call_args("Hypergraph", name, getattr(xgi.Hypergraph, name))
-            if ca is None:
-                continue
+    # subhypergraph freezes its result, whatever is selected (everything, a part, nothing, ids that do not exist)
+    import random as _random
+    rr = _random.Random(18)
+    for klass in ("Hypergraph", "SimplicialComplex"):
+        H = build(klass)
+        nodes, edges = list(H.nodes), list(H.edges)
+        selections = [{}, {"nodes": [1, 2, 3]}, {"nodes": []}, {"nodes": ["no-such-node", 10 ** 6]}, {"edges": []},
+                      {"edges": edges[:1]}, {"nodes": nodes[:2], "edges": edges[:2]}, {"nodes": [], "edges": edges[:1]},
+                      {"nodes": nodes[:1], "keep_isolates": False}, {"nodes": [], "keep_isolates": False}]
+        for _ in range(6):
+            sel = {}
+            if rr.random() < 0.8:
+                sel["nodes"] = rr.sample(nodes, rr.randint(0, len(nodes)))
+            if rr.random() < 0.5:
+                sel["edges"] = rr.sample(edges, rr.randint(0, len(edges)))
+            if rr.random() < 0.3:
+                sel["keep_isolates"] = False
+            selections.append(sel)
+        for sel in selections:
             try:
-                getattr(sub, name)(*ca[0], **ca[1])
-            except Exception:  # noqa: BLE001
-                pass
-            if snapshot(sub, "Hypergraph") != before:
-                failures.append((f"{PROP}:subhypergraph.{name}:modifies", {"what": f"{name} modifies a subhypergraph result"}))
-                break
+                sub = xgi.subhypergraph(H, **sel)
+            except Exception:  # noqa: BLE001 - a selection the function refuses is not a frozen-network question
+                continue
+            if not sub.is_frozen:
+                failures.append((f"{PROP}:subhypergraph:not-frozen",
+                                 {"what": f"subhypergraph({klass}, {sel}) is not frozen", "class": klass, "selection": repr(sel)}))
+                continue
+            before = snapshot(sub, klass)
+            for name in sorted(KNOWN[klass] - {"update", "merge_duplicate_edges", "cleanup"}):
+                ca = call_args(klass, name, getattr(getattr(xgi, klass), name))
+                if ca is None:
+                    continue
+                exc = None
+                try:
+                    getattr(sub, name)(*ca[0], **ca[1])
+                except Exception as e:  # noqa: BLE001
+                    exc = e
+                if snapshot(sub, klass) != before:
+                    failures.append((f"{PROP}:subhypergraph.{name}:modifies",
+                                     {"what": f"{name} modifies the result of subhypergraph({klass}, {sel})", "class": klass, "selection": repr(sel)}))
+                    break
+                # the library's error is owed only by a call that would change an editable copy
+                cp = sub.copy()
+                try:
+                    getattr(cp, name)(*ca[0], **ca[1])
+                except Exception:  # noqa: BLE001
+                    pass
+                would_change = snapshot(cp, klass) != before
+                if would_change and not isinstance(exc, XGIError):
+                    failures.append((f"{PROP}:subhypergraph.{name}:no-library-error",
+                                     {"what": f"{name} on the result of subhypergraph({klass}, {sel}) ended with {type(exc).__name__ if exc else 'no exception'}",
+                                      "class": klass, "selection": repr(sel)}))
+                    break
     return failures
 
 
